@@ -64,7 +64,15 @@ func Framing(rec *Rec, o FramingOpts) (claimMax int) {
 	nrec := 3 + rng.Intn(14)
 	for i := 0; i < nrec; i++ {
 		k := fmt.Sprintf("f%02d", rng.Intn(8))
+		if rng.Intn(9) == 0 {
+			k = "" // the empty key is admissible ...
+		}
 		s.use([]byte(k))
+		if k == "" && rng.Intn(2) == 0 {
+			// ... also with an empty value: the smallest valid record, six zero bytes and their checksum
+			db.Put([]byte{}, []byte{})
+			continue
+		}
 		if rng.Intn(5) == 0 {
 			db.Delete([]byte(k))
 			continue
